@@ -249,7 +249,7 @@ def directed():
 
 
 def generate(rng, tier):
-    n = 500 if tier == "quick" else 8000
+    n = 500 if tier == "quick" else 4500
     out = [{"obj": rand_obj(rng, rng.randrange(8))} for _ in range(n)]
     out += [{"obj": rand_obj(rng, rng.randrange(8), 0.0, 0.0)} for _ in range(n // 2)]
     out += [{"obj": rand_obj(rng, rng.randrange(8), 0.0, 0.35)} for _ in range(n // 4)]
@@ -369,10 +369,11 @@ COQ_HEADER = ["Definition SCH : Dom.schema := %s." % coq_list(
 
 def to_coq(case, obs):
     return ("{| Dom.k_schema := SCH; Dom.k_class := %s; Dom.k_obj := %s; Dom.k_asdict := %s; Dom.k_wire := %s; "
-            "Dom.k_back := %s |}" % (
+            "Dom.k_back := %s; Dom.k_typed := %s |}" % (
                 coq_nat(case["obj"][1]), _tree(case["obj"], "D"), _tree(obs["asdict"], "V"),
                 coq_list([_tree(w, "V") for w in obs["wire"]], "Dom.value"),
-                coq_list([coq_res(b, lambda t: _tree(t, "D")) for b in obs["back"]], "res Dom.dv")))
+                coq_list([coq_res(b, lambda t: _tree(t, "D")) for b in obs["back"]], "res Dom.dv"),
+                coq_bool(in_domain(case["obj"]) and not misplaced(case["obj"]))))
 
 
 def distribution(cases, obs):
